@@ -5,7 +5,7 @@ Reference model: one dict per state.  The simulator owns: the order of make_chil
 observer calls on a branching tree of states, the ancestor-limit knob, rejected
 updates.
 """
-from ..core import Engine, stream, BuildError, digest
+from ..core import Engine, stream, BuildError, digest, SimFault
 from ..build import World, render
 
 from unified_planning.model import UPState, Problem
@@ -53,6 +53,29 @@ def values_for(t, objs, types):
             return False
         return [["o", o] for o, ot in objs if is_sub(ot, t[1])]
     raise BuildError(t)
+
+
+class ProviderProblem(Problem):
+    """A Problem whose `fluents_defaults` (what UPState reads defaults from) can be made to fail at its n-th access."""
+
+    _armed = None
+    _fired = False
+
+    def arm(self, nth):
+        self._armed, self._fired = [nth], False
+
+    def disarm(self):
+        self._armed = None
+        return self._fired
+
+    @property
+    def fluents_defaults(self):
+        if self._armed is not None:
+            self._armed[0] -= 1
+            if self._armed[0] == 0:
+                self._fired = True
+                raise SimFault("injected failure of the defaults provider")
+        return Problem.fluents_defaults.fget(self)
 
 
 class StateHist(Engine):
@@ -141,7 +164,7 @@ class StateHist(Engine):
                 nid = f"s{len(ids)}"
                 ops.append({"op": "child", "id": nid, "of": parent, "updates": rand_updates(ro, 3)})
                 ids.append(nid)
-            elif r < 0.47 and grown < 2:
+            elif r < 0.46 and grown < 2:
                 # the problem goes on being built while states over it are alive: a refused add_fluent (the user type of
                 # its parameter is named like an existing fluent) and/or a further fluent with a default value
                 if ro.random() < 0.5:
@@ -155,6 +178,19 @@ class StateHist(Engine):
                 gf.append(["f", name])
                 ftype[name] = t
                 fdef[name] = dv
+            elif r < 0.485:
+                # the states' source of default values (the problem's `fluents_defaults`, code the state calls back
+                # into) fails at its n-th access INSIDE one observer or make_child call: the call fails, no state may
+                # be damaged.  (Failures at arbitrary instructions are NOT injected: the statement has no failure
+                # clause, and the unchanged UPState is not atomic at that granularity either.)
+                what = ro.choice(["hash", "hash", "repr", "eq", "child"])
+                op = {"op": "interrupted", "what": what, "s": ro.choice(ids[-4:]) if ro.random() < 0.7 else ro.choice(ids),
+                      "nth": ro.randint(1, 10)}
+                if what == "eq":
+                    op["b"] = ro.choice(ids)
+                if what == "child":
+                    op["updates"] = rand_updates(ro, 3)
+                ops.append(op)
             elif r < 0.49:
                 # work done on a CLONE of the states' problem (what every compiler does): nothing a state answers may change
                 fd = ro.choice(fluents)
@@ -182,7 +218,7 @@ class StateHist(Engine):
     def execute(self, script, ctx):
         world = script["world"]
         W = World(world)
-        p = Problem("p", W.env)
+        p = ProviderProblem("p", W.env)
         defaults = {}
         for fd in world["fluents"]:
             if fd.get("default") is None:
@@ -285,6 +321,31 @@ class StateHist(Engine):
                     ctx.probe("chain-path")
                 ctx.ev(i, "child", op["id"], "of", op["of"], len(ups), "condensing" if condensing else "chained")
                 ctx.outcome("child", "condense" if condensing else "chain")
+            elif k == "interrupted":
+                if op["s"] not in real or (op["what"] == "eq" and op.get("b") not in real):
+                    continue
+                st = real[op["s"]]
+                ctx.faults_cfg["callback_raise"] += 1
+                ups_ = {W.expr(fe): W.expr(v) for fe, v in op.get("updates", [])} if op["what"] == "child" else None
+                p.arm(op.get("nth", 1))
+                try:
+                    if op["what"] == "hash":
+                        hash(st)
+                    elif op["what"] == "repr":
+                        repr(st)
+                    elif op["what"] == "eq":
+                        st == real[op["b"]]
+                    else:
+                        st.make_child(ups_)
+                except SimFault:
+                    pass
+                finally:
+                    fired = p.disarm()
+                if fired:
+                    ctx.faults_fired["callback_raise"] += 1
+                    ctx.probe("call-failed-in-defaults-provider:" + op["what"])
+                ctx.ev(i, "interrupted", op["what"], op["s"], "fired" if fired else "completed")
+                ctx.outcome("interrupted", op["what"] + ("/fired" if fired else "/completed"))
             elif k == "grow":
                 if op["how"] == "clash":
                     if op.get("like") not in W.fluents:
